@@ -89,6 +89,7 @@ type Exec struct {
 	locals []localObj
 	argTypes []types.Type
 	argFT    bool
+	fnStatic    map[string]Val // closure reference -> statically known function and bindings
 	ifaceStatic map[string]Val // fresh interface constant -> statically known boxed value
 }
 
@@ -103,6 +104,7 @@ func newExec(L *Loader, fn *ssa.Function, spec *FuncSpec) *Exec {
 	}
 	e.pcNow = "true"
 	e.ifaceStatic = map[string]Val{}
+	e.fnStatic = map[string]Val{}
 	e.prelude()
 	return e
 }
